@@ -32,6 +32,11 @@ CHECKS = [
      "trusts: the exact polynomial/Problem model in sim/src/model/{poly,exact}.rs; workloads restricted to small dyadic rationals so that equality is exact",
      "deterministic simulation (operation histories with scheduled map iteration orders, exact reference-model oracle after every step, shrinking + replay)",
      "DESIGN.md section 3 C03"),
+ chk("C04", "exploration",
+     "seeded search over four scenarios with exact oracles: Function::substitute vs polynomial composition (coefficient by coefficient and by value, simultaneous semantics); 1-3 successive Instance::substitute calls then evaluate vs the reference evaluation of the original with replaced variables set through the chain; dependency maps as they may arrive from the wire (chains, trees, diamonds, cycles, references to variables without value) under explicitly forced iteration orders of the map - all 120 orders of N five-entry graphs are enumerated - via evaluate and evaluate_samples: Ok with the reference values or Err, and never a hang (per-run watchdog turns non-termination into a replayable violation); log_encode + substitute + evaluate.",
+     "trusts: exact polynomial/Problem model (model/poly.rs, model/exact.rs); map orders are forced by rebuilding the HashMap under successive RandomStates (an equal map in another order is a legal state of the same message); 'no hang' = 10 s wall-clock watchdog per run",
+     "deterministic simulation (schedules = iteration orders of the dependency map, enumerated for n=5 and sampled otherwise; operation histories; exact reference-model oracle; watchdog for progress; shrinking + replay)",
+     "DESIGN.md section 3 C04"),
  chk("C14", "exploration",
      "seeded search over histories of 1-9 operations relax(id, reason, params) / restore(id) / evaluate(state) with IDs drawn on purpose from the active list, the removed list and unknown IDs (a third of the mutating operations must fail): after every step conservation of (id, function, equality, metadata) over both lists, each ID in exactly one list, recorded reason and parameters, failing operation => Err and message == previous value; every evaluate equals the exact reference evaluation of the step-0 instance with relaxed feasibility over the currently active list.",
      "trusts: the two-list reference model in sim/src/props/c14.rs and the exact Problem model; valid instances only",
